@@ -338,7 +338,8 @@ class Stack:
             from pynenc.models.trigger_definition_dto import TriggerDefinitionDTO
             from pynenc.trigger.conditions import CompositeLogic
 
-            self.tr.register_trigger(TriggerDefinitionDTO(trigger_id=op[1], task_id=self.tasks["tA"].task_id,
+            # t3 belongs to ANOTHER task and shares condition c1 with the triggers of tA
+            self.tr.register_trigger(TriggerDefinitionDTO(trigger_id=op[1], task_id=self.tasks["tB" if op[1] == "t3" else "tA"].task_id,
                                                           condition_ids=[self.cond(c).condition_id for c in op[2]],
                                                           logic=CompositeLogic.AND, argument_provider_json=None))
             return "ok"
@@ -368,7 +369,7 @@ class Stack:
                 exp = exp.astimezone(_dt.timezone(_dt.timedelta(hours=2)))
             return str(bool(self.tr.store_last_cron_execution(cid, self.now_dt(now), exp)))
         if k == "t.clean":
-            self.tr.clean_task_trigger_definitions(self.tasks["tA"].task_id)
+            self.tr.clean_task_trigger_definitions(self.tasks[op[1] if len(op) > 1 else "tA"].task_id)
             return "ok"
         # ---- client data store (direct comparison only) --------------------------------------------------
         if k == "cds.put":
@@ -735,7 +736,7 @@ def readout_queries(labels: list[str], known: list[str], ext: str, ghosts: list[
     qs += [("rctxs", tuple(RUNNERS + [ext]))]
     qs += [("rmatch", p) for p in ("rA", "r")]
     qs += [("x.hrange",), ("x.irange",)]
-    qs += [("t.cond", c) for c in ("c1", "c3")] + [("t.trgs", c) for c in ("c1", "c2")] + [("t.trg", "t1"), ("t.valid",), ("t.cron", "c1"), ("t.cron", "c3")]
+    qs += [("t.cond", c) for c in ("c1", "c3")] + [("t.trgs", c) for c in ("c1", "c2")] + [("t.trg", "t1"), ("t.trg", "t3"), ("t.valid",), ("t.cron", "c1"), ("t.cron", "c3")]
     qs += [("cds.get", "pL"), ("cds.get", "ps")]
     return qs
 
@@ -1179,7 +1180,8 @@ class Gen:
         elif k == "t.cond":
             self.cond.add(op[1])
         elif k == "t.clean":
-            self.trg.clear()
+            gone = {"t3"} if (len(op) > 1 and op[1] == "tB") else {"t1", "t2"}
+            self.trg -= gone
 
     def known(self) -> list[str]:
         return [i for i in self.labels if not self.status.get(i, "err").startswith("err")]
@@ -1284,10 +1286,10 @@ class Gen:
         if x < 0.2:
             return ["t.cond", r.choice(["c1", "c2", "c3"])]
         if x < 0.35:
-            t = r.choice(["t1", "t2"])
+            t = r.choice(["t1", "t2", "t3"])
             if t in self.trg and not self.wild:
                 return None
-            return ["t.trg", t, ["c1"] if t == "t1" else ["c1", "c2"]]
+            return ["t.trg", t, ["c1", "c2"] if t == "t2" else ["c1"]]
         if x < 0.5:
             return ["t.valid", [[r.choice(["c1", "c2"]), r.choice(["e1", "e2"])]]]
         if x < 0.58:
@@ -1301,7 +1303,7 @@ class Gen:
             if c not in self.cond and not self.wild:
                 return None
             return ["t.cron", c, r.choice([None, "cur", "stale", "cur-tz"])]
-        return ["t.clean"]
+        return ["t.clean", r.choice(["tA", "tB"])]
 
     def _wild_op(self, known: list[str]) -> list | None:
         r = self.rng
